@@ -988,8 +988,8 @@ pub fn gen_plan(cfg: &Cfg) -> Vec<Action> {
     // 2. Faults: a number of occurrences per enabled class, inserted at random positions.
     //    Intensities are small numbers per run so that the system makes progress in between.
     let mut extra: Vec<(usize, Action)> = vec![];
-    let pos = |rng: &mut rand_chacha::ChaCha8Rng| rng.gen_range(0..len.max(1));
-    let count = |rng: &mut rand_chacha::ChaCha8Rng, level: u32, per_100: u32| -> usize {
+    let pos = |rng: &mut crate::kit::SimRng| rng.gen_range(0..len.max(1));
+    let count = |rng: &mut crate::kit::SimRng, level: u32, per_100: u32| -> usize {
         if level == 0 {
             0
         } else {
